@@ -1,7 +1,7 @@
 (* Entry points evaluated by the extracted driver: one harness case -> one report line. *)
 From Coq Require Import Ascii String.
 From Coq Require Import List NArith ZArith QArith Bool Arith.
-From V Require Import Str Num Tok Tables Items Read Decode Bytes WellFormed Doc Case Paginate Pipeline Document TextSpec Checks Validate Assemble.
+From V Require Import Str Num Tok Tables Items Read Decode Bytes WellFormed Doc Case Paginate Pipeline Document TextSpec Checks Validate Assemble StrWidth.
 Import ListNotations.
 Local Open Scope string_scope.
 Local Open Scope list_scope.
@@ -388,6 +388,16 @@ Definition run_case' (e : sexp) : str :=
     else run_case e
   | SList [SStr mode; SStr id; SStr kind; vals] =>
     if str_eqb mode (s2l "c19") then run_c19 id kind vals else run_case e
+  | SList [SStr mode; SStr id; SNum f; SStr text] =>
+    (* C20: model width of `text` in 1/64 px at the reference size, for font number f *)
+    match dZ (SNum f) with
+    | Some font =>
+      match font_metrics font with
+      | Some (adv, kern) => line [kv "id" id; kv "w64" (dec_of_Z (width64 adv kern text))]
+      | None => line [kv "id" id; kv "w64" (s2l "unsupported")]
+      end
+    | None => line [kv "id" id; kv "bad" (s2l "font")]
+    end
   | SList [SStr mode; SStr id; de; impl; extra] =>
     match dDoc de with
     | Some d => if str_eqb mode (s2l "c10") then run_c10 id d impl extra
